@@ -75,7 +75,7 @@ def checkPoly (op : String) (args res : List String) : Verdict :=
        let nPolyArgs : Nat := match op with
          | "add" | "sub" | "mul" => 2
          | "addmul" | "submul" => 3
-         | "fromuni" => 0
+         | "fromuni" | "simple" => 0
          | _ => 1
        let inputsOk : Bool := (rest.take nPolyArgs).all (fun s => match pPolyRaw? s with | some raw => rawCanonical K raw | none => true)
        if !inputsOk then .viol "poly-canon" "an operand is not in canonical form" else
@@ -96,6 +96,32 @@ def checkPoly (op : String) (args res : List String) : Verdict :=
            | some a, some x, some n => judgePoly K tag "poly-shl" r (MPoly.shl K a x n) | _, _, _ => .skip "bad")
        | "deriv", [a, x], [r] => (match P a, pInt? x with
            | some a, some x => judgePoly K tag "poly-deriv" r (if x < 0 then [] else MPoly.derivative K a x.toNat) | _, _ => .skip "bad")
+       | "obs", [a], [z, c, d, tv] =>
+         -- structural observers must agree with the denoted polynomial
+         (match P a with
+          | some a =>
+            let isC := a.all (fun t => t.1.isEmpty)
+            let top := (MPoly.vars a).foldl max 0
+            let wantDeg := if isC then 0 else MPoly.degreeIn top a
+            if (z = "1") ≠ a.isEmpty then .viol "poly-obs" s!"is_zero = {z} for {showPoly a}"
+            else if (c = "1") ≠ isC then .viol "poly-obs" s!"is_constant = {c} for {showPoly a}"
+            else if d ≠ toString wantDeg then .viol "poly-obs" s!"degree = {d} for {showPoly a} (degree {wantDeg} in its top variable)"
+            else if !isC ∧ tv ≠ toString top then .viol "poly-obs" s!"top variable = {tv} for {showPoly a}"
+            else .ok "poly/obs"
+          | none => .skip "bad")
+       | "simple", [c, x, n], [r, z, k, d] =>
+         (match pInt? c, pNat? x, pNat? n with
+          | some c, some x, some n =>
+            let want := MPoly.normalize K [((if n = 0 then [] else [(x, n)]), c)]
+            let isC := want.all (fun t => t.1.isEmpty)
+            match judgePoly K tag "poly-simple" r want with
+            | .ok _ =>
+              if (z = "1") ≠ want.isEmpty then .viol "poly-simple" s!"is_zero = {z} for {c}*x{x}^{n}"
+              else if (k = "1") ≠ isC then .viol "poly-simple" s!"is_constant = {k} for {c}*x{x}^{n} = {showPoly want}"
+              else if d ≠ toString (if isC then 0 else n) then .viol "poly-simple" s!"degree = {d} for {c}*x{x}^{n} = {showPoly want}"
+              else .ok s!"poly/simple/{if want.isEmpty then "zero" else if isC then "const" else "proper"}"
+            | v => v
+          | _, _, _ => .skip "bad")
        | "addmono", [a, t], [r] => (match P a, pTerm? t with
            | some a, some t => judgePoly K tag "poly-addmono" r (MPoly.add K a [t]) | _, _ => .skip "bad")
        | "evalint", [a, vs], [r] => (match P a, pList? pInt? vs with
